@@ -4,6 +4,8 @@ import json, os
 VERIF = os.path.dirname(os.path.dirname(os.path.abspath(__file__)))
 
 CLAIMED = {
+ "C02": ("exploration", "7 C02", "Seeded write histories (inserts, updates that change/add/remove indexed fields including nested paths, deletes, reopen) on a real shard with string (both case sensitivities), string-array, integer and float indexes under seeded schedules of the write pipeline; after every write a seeded panel of filter queries (every operator, boundary operands, _and/_or trees to depth 3, _id lookups) is asked of the warm instance and periodically of a cold copy of the file; the returned id set must equal the set computed by an independent evaluator over the reference model (IEEE comparison for numbers, byte order of the possibly folded string for strings). Only tolerance: a zero compared with a zero of the opposite sign may fall either way. Evidence, not proof.",
+         "deterministic simulation: seeded scheduler + reference-model evaluator of every filter operator (exact set equality)"),
  "C07": ("fault_enumeration", "7 C07", "For sampled (history, schedule) pairs a fault-free dry run counts the storage operations of a target write batch; then one fault per simulated process life: validation rejections, error from the k-th put/delete/scan/bucket-open, commit failure, disk full and meta-write failure (bbolt's own gofail failpoints), process kill at the k-th storage operation / before commit / between data and meta sync / after commit. Quick samples 5 faults per history; thorough additionally enumerates every kind x every k of the batch for a third of the histories (exhaustive for that batch). Oracle: failed call => warm answers, cold answers on a file copy and the logical file digest equal the pre-batch state and the rest of the history still behaves; success => post-batch state; kill => the reopened file is exactly the pre- or post-batch state as the crash point dictates; any panic in any goroutine or use of a storage handle after its transaction ended is a violation.",
          "deterministic simulation + storage fault / crash-point enumeration (storage proxy, bbolt gofail failpoints), pre/post-state refinement oracle"),
  "C01": ("exploration", "7 C01", "Seeded histories of insert/update/delete/reopen/evict batches on a real shard (bbolt or memory backend) under seeded schedules of its internal pipeline goroutines; after every batch the complete stored state (id set, every document, point count) and every call's return values are compared with an independent reference model. Evidence, not proof: sampling of histories x schedules.",
